@@ -690,6 +690,10 @@ class C09(Spec):
         if nexc is not None and any(str(nexc).startswith(st) for st in drive_tree.SIZING_STEMS):
             # the run died from the known sizing-search defect (C05/C10): blocked, not judged here
             viol.append({"check": "C10.sizing_exception", "detail": str(nexc)[:100], "flags": {"stem": str(nexc)[:24]}})
+        elif isinstance(nexc, ZeroDivisionError) and sim.root.bankrupt:
+            # the parent went bankrupt and was liquidated inside the date's algo run, the child's stack then traded on the liquidated
+            # tree and the child sits on a zero base (C16's KF-C16-liquidation-inside-the-algo-run-does-not-stop-it): not about C09
+            viol.append({"check": "bankrupt_traded_after", "detail": "parent bankrupt, then %s" % str(nexc)[:100], "flags": {"liquidated_mid_run": True}})
         elif isinstance(nexc, ZeroDivisionError) and "Could not update parent " in str(nexc):
             # the parent itself sits on a zero base (drained by flows): legitimate, and not about the child
             info["parent_zero_base"] = 1
@@ -1067,7 +1071,7 @@ class C11(Spec):
 class C16(TreeSpec):
     id = "C16"
     judged = ("C16",)
-    own_checks = ("bankrupt_missed", "bankrupt_spurious", "bankrupt_sub", "bankrupt_fi", "bankrupt_residual", "bankrupt_algos_ran", "bankrupt_positions_after", "bankrupt_not_constant", "ledger_value", "ledger_pos", "ledger_cash")
+    own_checks = ("bankrupt_missed", "bankrupt_spurious", "bankrupt_sub", "bankrupt_fi", "bankrupt_residual", "bankrupt_algos_ran", "bankrupt_positions_after", "bankrupt_not_constant", "bankrupt_traded_after", "ledger_value", "ledger_pos", "ledger_cash")
     tiers = {"quick": dict(runs=12000, builds=("py",), wall=75), "thorough": dict(runs=120000, builds=("py", "cy"), wall=1500)}
     rule = (
         "leveraged / short portfolios (flat and nested, positions held by grandchildren) meet a seeded price shock sized to push equity through, onto or just above zero on any date, with recovery afterwards; tree-driver runs add arbitrary op histories with leverage; "
